@@ -523,6 +523,24 @@ where
     assert!(eq(old.rd()[q], c[p][q]), "replace_col returns the old column");
     let (p2, q2) = (idx::<N>(), idx::<N>());
     assert!(eq(r.rd()[p2][q2], if p2 == p { ncol[q2] } else { c[p2][q2] }), "replace_col replaces exactly column p");
+
+    // Matrix::swap_elements((col, row), (col, row)) exchanges exactly the two named elements
+    let (ac, ar, bc, br) = (idx::<N>(), idx::<N>(), idx::<N>(), idx::<N>());
+    let mut sw = M::mk(c);
+    sw.swap_elements((ac, ar), (bc, br));
+    let (p3, q3) = (idx::<N>(), idx::<N>());
+    let want = if p3 == ac && q3 == ar { c[bc][br] } else if p3 == bc && q3 == br { c[ac][ar] } else { c[p3][q3] };
+    assert!(eq(sw.rd()[p3][q3], want), "Matrix::swap_elements exchanges exactly the named (column, row) elements");
+    // swap_columns / swap_rows
+    let (i, j) = (idx::<N>(), idx::<N>());
+    let mut sc = M::mk(c);
+    sc.swap_columns(i, j);
+    let pc = if p3 == i { j } else if p3 == j { i } else { p3 };
+    assert!(eq(sc.rd()[p3][q3], c[pc][q3]), "Matrix::swap_columns exchanges exactly columns i and j");
+    let mut sr = M::mk(c);
+    sr.swap_rows(i, j);
+    let qr = if q3 == i { j } else if q3 == j { i } else { q3 };
+    assert!(eq(sr.rd()[p3][q3], c[p3][qr]), "Matrix::swap_rows exchanges exactly rows i and j");
 }
 
 pub fn mat_oob<M, E, const N: usize>()
